@@ -15,7 +15,12 @@
 //! checked <v>            => ok:<v> | err Prob::checked
 //! fexp <x>               => <r>          FastExp::fastexp
 //! consts                 => <l2q> <q2l>  PHREDProb::from(LogProb(1.0)), LogProb::from(PHREDProb(1.0)) = the two scale factors
+//! lsum <rle>             => <r>          ln_sum_exp of a long list
+//! lcumsum <stride> <rle> => <r,…> <s>    ln_cumsum_exp, sampled (see below), and ln_sum_exp of the same list
+//! lchain <l|r|a> <stride> <rle> => <r,…> s = x0; s = s.ln_add_exp(x) (l) | x.ln_add_exp(s) (r) | alternating (a); sampled
 //! ```
+//! `<rle>`: run-length list, items `<x>` or `<x>*<count>` separated by `,` (expanded length 1 ..= 2 000 000).
+//! Sampled: the partial results number `stride`, `2·stride`, … (1-based) and the last one.
 //! densities: `const:<ln c>` | `poly:<c0>:<c1>:<c2>` (c0 + c1 x + c2 x², coefficients >= 0, used on x >= 0) |
 //! `gauss:<mu>:<sigma>` | `expd:<lambda>` (λ e^{-λx}) | `box:<lo>:<hi>:<ln c>` (c on [lo,hi], 0 outside).
 use crate::util::*;
@@ -370,6 +375,146 @@ pub fn gen(tier: &str, rng: &mut Rng, out: &mut Vec<String>) {
         };
         out.push(line);
     }
+    gen_long(tier, rng, out);
+}
+
+// ------------------------------------------------------------------------------ long accumulations (seed C15-6)
+//
+// One accumulator that holds a large value and is fed hundreds to millions of summands each far below it: every single
+// addition is accurate, the *sum of what is dropped* is what a "negligible next to the larger operand" shortcut loses.
+
+fn rle_show(runs: &[(f64, usize)]) -> String {
+    runs.iter()
+        .filter(|r| r.1 > 0)
+        .map(|(x, k)| if *k == 1 { fe(*x) } else { format!("{}*{}", fe(*x), k) })
+        .collect::<Vec<_>>()
+        .join(",")
+}
+
+fn rle_parse(s: &str) -> Result<Vec<(f64, usize)>, String> {
+    let mut runs = vec![];
+    let mut total = 0usize;
+    for it in s.split(',') {
+        let (x, k) = match it.split_once('*') {
+            Some((x, k)) => (pf(x)?, parse::<usize>(k)?),
+            None => (pf(it)?, 1),
+        };
+        if x.is_nan() || x > 0.0 {
+            return Err("not a log-probability".into());
+        }
+        if k == 0 {
+            return Err("empty run".into());
+        }
+        total = total.checked_add(k).ok_or("too long")?;
+        if total > 2_000_000 {
+            return Err("too long".into());
+        }
+        runs.push((x, k));
+    }
+    Ok(runs)
+}
+
+fn rle_expand(runs: &[(f64, usize)]) -> Vec<LogProb> {
+    let mut v = Vec::with_capacity(runs.iter().map(|r| r.1).sum());
+    for (x, k) in runs {
+        v.extend(std::iter::repeat(LogProb(*x)).take(*k));
+    }
+    v
+}
+
+fn sampled(all: impl Iterator<Item = f64>, n: usize, stride: usize) -> Vec<f64> {
+    all.enumerate().filter(|(i, _)| (i + 1) % stride == 0 || i + 1 == n).map(|(_, x)| x).collect()
+}
+
+/// the scenarios: `head` = ln of the dominant summand, tail summands `ratio` times the head, `n` of them
+/// (tail mass / head = n·ratio, between 1 % and 10 %, so 2–20 times the 0.5 % bound)
+fn long_runs(rng: &mut Rng, thorough: bool) -> Vec<(f64, usize)> {
+    let head = *rng.pick(&[0.5f64.ln(), 0.25f64.ln(), 0.9f64.ln(), 1e-3f64.ln(), -230.0, -600.0, -0.75, -3.0]);
+    // ratio of one tail summand to the head; below ~1e-15 ordinary f64 addition absorbs the summand as well
+    let ratios: &[f64] =
+        if thorough { &[1e-3, 1e-4, 3e-5, 1e-5, 5e-6, 2.5e-6, 1e-6, 3e-7, 1e-7, 1e-8] } else { &[1e-3, 1e-4, 3e-5, 1e-5, 5e-6, 2.5e-6, 1e-6, 1e-6, 3e-7, 1e-7] };
+    let ratio = *rng.pick(ratios) * (0.75 + 0.5 * unit(rng));
+    let mass = 0.01 + 0.09 * unit(rng);
+    let n = ((mass / ratio).ceil() as usize).clamp(2, 1_500_000);
+    let t = head + ratio.ln();
+    match rng.below(8) {
+        // the peak first, then the flat tail
+        0 | 1 => vec![(head, 1), (t, n)],
+        // tail first (accumulates among itself), then the peak, then as much again
+        2 => vec![(t, n / 2), (head, 1), (t, n - n / 2)],
+        // tiny summands only before the peak
+        3 => vec![(t, n), (head, 1)],
+        // interleaved: peaks of falling height between stretches of the tail; ln 0 entries in between
+        4 => {
+            let q = n / 4;
+            vec![(t, q), (head, 1), (f64::NEG_INFINITY, 3), (t, q), (head - 1.0, 1), (t, q), (head - 2.5, 2), (t, n - 3 * q)]
+        }
+        // two levels: a middle plateau (1e-3 of the head) and the tiny tail below it
+        5 => {
+            let mid = head + 1e-3f64.ln();
+            vec![(head, 1), (mid, 1 + rng.below(40) as usize), (t, n)]
+        }
+        // jittered tail: runs of 1..200 summands of slightly different size (same total mass on average)
+        6 => {
+            let mut runs = vec![(head, 1)];
+            let mut left = n;
+            while left > 0 && runs.len() < 1500 {
+                let k = (1 + rng.below(if n > 100_000 { 4000 } else { 200 }) as usize).min(left);
+                runs.push((t + (0.5 + unit(rng)).ln(), k));
+                left -= k;
+            }
+            if left > 0 {
+                runs.push((t, left));
+            }
+            runs
+        }
+        // falling staircase: each stretch a factor 2 below the previous one, lengths doubling (equal mass per step)
+        _ => {
+            let mut runs = vec![(head, 1)];
+            let mut k = (n / 15).max(1);
+            let mut x = t + 2.0f64.ln();
+            for _ in 0..4 {
+                runs.push((x, k));
+                x -= 2.0f64.ln();
+                k *= 2;
+            }
+            runs
+        }
+    }
+}
+
+fn gen_long(tier: &str, rng: &mut Rng, out: &mut Vec<String>) {
+    let thorough = tier == "thorough";
+    // the seed's own shape and its mirror images, every run
+    for runs in [
+        vec![(0.5f64.ln(), 1), (2.5e-6f64.ln(), 4000)],
+        vec![(0.25f64.ln(), 1), (2e-6f64.ln(), 2000)],
+        vec![(2.5e-6f64.ln(), 4000), (0.5f64.ln(), 1)],
+        vec![(0.0, 1), (-18.5, 1_500_000)],
+    ] {
+        let n: usize = runs.iter().map(|r| r.1).sum();
+        let stride = (n / 64).max(1);
+        out.push(format!("lcumsum {} {}", stride, rle_show(&runs)));
+        out.push(format!("lsum {}", rle_show(&runs)));
+        for o in ["l", "r", "a"] {
+            out.push(format!("lchain {} {} {}", o, stride, rle_show(&runs)));
+        }
+    }
+    let cases = if thorough { 1500 } else { 90 };
+    for i in 0..cases {
+        let runs = long_runs(rng, thorough);
+        let n: usize = runs.iter().map(|r| r.1).sum();
+        let stride = match rng.below(4) {
+            0 if n <= 3000 => 1,
+            1 => (n / 7).max(1),
+            _ => (n / (20 + rng.below(100) as usize)).max(1),
+        };
+        out.push(match i % 6 {
+            0 | 1 | 2 => format!("lcumsum {} {}", stride, rle_show(&runs)),
+            3 => format!("lsum {}", rle_show(&runs)),
+            _ => format!("lchain {} {} {}", rng.pick(&["l", "r", "a"]), stride, rle_show(&runs)),
+        });
+    }
 }
 
 // ------------------------------------------------------------------------------------------------ exec
@@ -505,6 +650,42 @@ pub fn exec(toks: &[&str]) -> Result<String, String> {
                 return Err("fexp operand must be <= 0".into());
             }
             Ok(fe(x.fastexp()))
+        }
+        ("lsum", 2) => {
+            let xs = rle_expand(&rle_parse(toks[1])?);
+            Ok(fe(*LogProb::ln_sum_exp(&xs)))
+        }
+        ("lcumsum", 3) => {
+            let stride: usize = parse(toks[1])?;
+            if stride == 0 {
+                return Err("stride".into());
+            }
+            let xs = rle_expand(&rle_parse(toks[2])?);
+            let n = xs.len();
+            let total = *LogProb::ln_sum_exp(&xs);
+            let r = sampled(LogProb::ln_cumsum_exp(xs).map(|x| *x), n, stride);
+            Ok(format!("{} {}", fl(&r), fe(total)))
+        }
+        ("lchain", 4) => {
+            let stride: usize = parse(toks[2])?;
+            if stride == 0 || !matches!(toks[1], "l" | "r" | "a") {
+                return Err("stride / order".into());
+            }
+            let xs = rle_expand(&rle_parse(toks[3])?);
+            let n = xs.len();
+            let mut s = xs[0];
+            let mut all = Vec::with_capacity(n);
+            all.push(*s);
+            for (i, x) in xs.iter().enumerate().skip(1) {
+                let self_first = match toks[1] {
+                    "l" => true,
+                    "r" => false,
+                    _ => i % 2 == 1,
+                };
+                s = if self_first { s.ln_add_exp(*x) } else { x.ln_add_exp(s) };
+                all.push(*s);
+            }
+            Ok(fl(&sampled(all.into_iter(), n, stride)))
         }
         ("consts", 1) => Ok(format!("{} {}", fe(*PHREDProb::from(LogProb(1.0))), fe(*LogProb::from(PHREDProb(1.0))))),
         _ => Err("unknown op".into()),
